@@ -136,7 +136,7 @@ func corrSites(lines []string, legacy bool, M uint64) []Corr {
 		}
 	}
 	for b := 0; b <= len(lines); b++ {
-		for v := 0; v < 14; v++ {
+		for v := 0; v < 16; v++ {
 			out = append(out, Corr{"directive", b, 0, v})
 		}
 	}
@@ -208,6 +208,10 @@ func applyCorr(lines []string, ks []Corr, legacy bool, M uint64) (string, bool) 
 			d = "ORG"
 		case k.V == 12:
 			d = "ORG 0 1"
+		case k.V == 14:
+			d = "; " + strings.Repeat("x", 70000) // a comment line longer than common line buffers
+		case k.V == 15:
+			d = ";redcode-94"
 		default:
 			d = "END 0 0"
 		}
@@ -268,6 +272,6 @@ func (c *Ctx) RunC10(tier string) {
 			}
 		}
 	}
-	rep.Bound = fmt.Sprintf("10 canonical files per dialect x M in %v: truncation at every byte; every single corruption (delete / duplicate / transpose a field, 19 replacement numbers, 5 bad mnemonics, 5 bad modes, 14 directive insertions at every line boundary), also without the final newline; every pair of corruptions (quick: for the first 3 files); (thorough) every single corruption truncated at every byte", sizes)
+	rep.Bound = fmt.Sprintf("10 canonical files per dialect x M in %v: truncation at every byte; every single corruption (delete / duplicate / transpose a field, 19 replacement numbers, 5 bad mnemonics, 5 bad modes, 16 insertions (directives in every form, a 70000-character comment, a ;redcode line) at every line boundary), also without the final newline; every pair of corruptions (quick: for the first 3 files); (thorough) every single corruption truncated at every byte", sizes)
 	rep.Sample(strings.Join(canonicalFiles(true, 8000)[4], "\n") + "\n")
 }
